@@ -138,6 +138,14 @@ func (n *ThreadedNewsYAML) PostArticle(newsPath []string, parentArticleID uint32
 	catName := newsPath[len(newsPath)-1]
 	cat := cats[catName]
 
+	// A reply to an article that is not there is refused before anything is touched: the links of the newest article
+	// are updated below, and the missing parent used to be noticed (by a nil dereference) only after that.
+	if parentArticleID != 0 {
+		if _, ok := cat.Articles[parentArticleID]; !ok {
+			return fmt.Errorf("parent article %d does not exist", parentArticleID)
+		}
+	}
+
 	var keys []int
 	for k := range cat.Articles {
 		keys = append(keys, int(k))
